@@ -23,6 +23,8 @@ pub struct VDoc {
     pub tags: Vec<String>,
     #[unique]
     pub codes: Vec<String>,
+    /// wildcard map: indexed by its keys
+    pub attrs: std::collections::BTreeMap<String, u64>,
     pub body: String,
     pub emb: Vector,
 }
@@ -45,6 +47,7 @@ pub fn vdoc_codes(name: &str, age: u64, opt: Option<u64>, tags: &[&str], codes: 
         opt,
         tags: tags.iter().map(|s| s.to_string()).collect(),
         codes: codes.iter().map(|s| s.to_string()).collect(),
+        attrs: tags.iter().map(|t| (format!("k{t}"), age)).collect(),
         body: body.to_string(),
         emb: emb_of(age, name.len() as u64),
     }
@@ -58,6 +61,7 @@ pub struct Idx {
     pub opt: bool,
     pub tags: bool,
     pub codes: bool,
+    pub attrs: bool,
     pub age_opt: bool,
     pub body: bool,
     pub emb: bool,
@@ -70,6 +74,7 @@ impl Idx {
         opt: true,
         tags: true,
         codes: true,
+        attrs: true,
         age_opt: false,
         body: true,
         emb: true,
@@ -80,6 +85,7 @@ impl Idx {
         opt: true,
         tags: true,
         codes: false,
+        attrs: false,
         age_opt: false,
         body: false,
         emb: false,
@@ -90,6 +96,7 @@ impl Idx {
         opt: false,
         tags: false,
         codes: false,
+        attrs: false,
         age_opt: false,
         body: false,
         emb: false,
@@ -151,6 +158,9 @@ pub async fn open_coll_with(db: &AndaDB, idx: Idx, had: Idx) -> Result<Arc<Colle
             }
             if idx.codes {
                 c.create_btree_index_nx(&["codes"]).await?;
+            }
+            if idx.attrs {
+                c.create_btree_index_nx(&["attrs"]).await?;
             }
             if idx.age_opt {
                 c.create_btree_index_nx(&["age", "opt"]).await?;
